@@ -552,6 +552,11 @@ def main():
     neg = re.findall(r'-\s*node->val\.anode\.cost\s*-\s*1', yaep_c)
     cpl = re.findall(r'~\s*node->val\.anode\.cost', yaep_c)
     L.append('Definition visit_mark_is_complement : bool := %s.' % ('true' if not neg and len(cpl) >= 3 else 'false'))
+    # the hashes kept in set cores and sets have the width of the hash functions' results (unsigned int)
+    hf = re.findall(r'\b(unsigned(?:\s+(?:int|short|char|long))?)\s+(hash|dists_hash)\s*;', yaep_c)
+    L.append('(* declared types of the hash members of struct set_core and struct set *)')
+    L.append('Definition set_hash_members_are_unsigned_int : bool := %s.' % (
+        'true' if sorted(n for t, n in hf) == ['dists_hash', 'hash'] and all(re.sub(r'\s+', ' ', t) in ('unsigned', 'unsigned int') for t, n in hf) else 'false'))
     L.append('')
 
     # hash table expressions (C and C++)
